@@ -982,6 +982,10 @@ class GenFunctions(object):
             fmt = new.fmtdict
             if targs.fmtdict:
                 fmt.update(targs.fmtdict)
+            if targs.options:
+                # options of this instantiation, as for a class template.
+                new.options.update(targs.options)
+                new.wrap = ast.WrapFlags(new.options)
 
             # Use explicit template_suffix if provide.
             # If single template argument, use type's explicit_suffix
